@@ -30,6 +30,17 @@ MARK = NRS + "::mark_as_stored"
 WITHCFG = NRS + "::with_config"
 
 
+WRITE_APIS = ["std::fs::write", "std::fs::OpenOptions::open", "std::fs::File::create", "std::fs::File::create_new"]
+
+
+def write_verdict_guards(steps):
+    """guards whose accepting side means `the record file write completed` (fs::write, or open(..).and_then(write_all ..), or write_all itself)"""
+    opened = lambda b, blk, t: op_local(t["args"][0]) in Taint(b, through="all").closure(call_results(["std::fs::OpenOptions::open", "std::fs::File::create"])(b))
+    return [CallGuard(["std::fs::write"], steps, "fs::write is %s" % steps[0]),
+            CallGuard(["core::result::Result::and_then"], steps, "open(..).and_then(write) is %s" % steps[0], arg_pred=opened),
+            CallGuard(["*std::io::Write>::write_all", "std::io::Write::write_all"], steps, "write_all is %s" % steps[0])]
+
+
 def store_rules(R, pfx):
     """ownership rules shared by C01 and C10"""
     writers = [MARK, REMOVE]
@@ -96,13 +107,17 @@ def run(R):
     for b, a in sites:
         if R.root_path(b) == PUTV:
             R.gate("C01.mark-after-write.gate", b, AggSink(LSC, "AddLocalRecordAsStored"),
-                   [[CallGuard(["std::fs::write"], ("Ok",), "fs::write is Ok")]], descr="AddLocalRecordAsStored only after fs::write returned Ok")
+                   [write_verdict_guards(("Ok",))], descr="AddLocalRecordAsStored only after the file write returned Ok")
             R.gate("C01.mark-after-write.err", b, AggSink(LSC, "RemoveFailedLocalRecord"),
-                   [[CallGuard(["std::fs::write"], ("Err",), "fs::write is Err")]], descr="a failed write produces RemoveFailedLocalRecord")
+                   [write_verdict_guards(("Err",))], descr="a failed write produces RemoveFailedLocalRecord")
             # the key announced is the key of the record written
             prep(b)
             ta = Taint(b, through="all")
-    R.who_may_call("C01.fs.write", ["std::fs::write"], [PUTV], floor=1, descr="fs::write in ant_networking only in put_verified", ignore_crates=_non(F, "ant_networking"))
+    R.who_may_call("C01.fs.write", WRITE_APIS, [PUTV, NRS + "::flush_historic_quoting_metrics",
+                                                # writes/reads the `network_key_version` marker file in the node's root dir (not a record file)
+                                                "ant_networking::driver::check_and_wipe_storage_dir_if_necessary"], floor=3,
+                   descr="file-writing APIs in ant_networking only in put_verified (records), flush_historic_quoting_metrics and the version-marker check",
+                   ignore_crates=_non(F, "ant_networking"))
     R.who_may_call("C01.fs.remove", ["std::fs::remove_file"], [REMOVE, NRS + "::update_records_from_an_existing_store"], floor=2,
                    descr="fs::remove_file in ant_networking only in remove and the start-up scan", ignore_crates=_non(F, "ant_networking"))
     R.who_may_call("C01.fs.read", ["std::fs::read"], [NRS + "::read_from_disk", NRS + "::update_records_from_an_existing_store"], floor=2,
@@ -111,12 +126,12 @@ def run(R):
     # (3) name / nonce agreement
     n = 0
     ok = True
-    for fn, op, keysrc in ((PUTV, "std::fs::write", None), (NRS + "::read_from_disk", "std::fs::read", 1), (REMOVE, "std::fs::remove_file", 1)):
+    for fn, op, keysrc in ((PUTV, WRITE_APIS, None), (NRS + "::read_from_disk", ["std::fs::read"], 1), (REMOVE, ["std::fs::remove_file"], 1)):
         for b in F.item(fn):
             prep(b)
             for blk in b.blocks:
                 t = blk["term"]
-                if t["k"] == "call" and not blk["cleanup"] and callee_matches(t, [op]):
+                if t["k"] == "call" and not blk["cleanup"] and callee_matches(t, op):
                     n += 1
                     root = F.body(fn)
                     # the path argument: join(generate_filename(..)) computed in the root function (captured by the spawned task)
@@ -132,9 +147,9 @@ def run(R):
                         continue
                     paths = ta.closure({x["term"]["d"][0] for x in good})
                     if b is root:
-                        if op_local(t["args"][0]) not in paths:
+                        if not any(op_local(a) in paths for a in t["args"]):
                             ok = False
-                            R.viol("C01.path", "path-arg:%s" % fn.split("::")[-1], "%s is not applied to storage_dir.join(generate_filename(key))" % op, b, t["l"])
+                            R.viol("C01.path", "path-arg:%s" % fn.split("::")[-1], "%s is not applied to storage_dir.join(generate_filename(key))" % t["ncallee"], b, t["l"])
                     else:
                         # captured into the spawned task: the closure aggregate must capture the path local
                         caps = [s for x in root.blocks for s in x["stmts"] if s["rv"]["k"] == "agg" and s["rv"]["ak"] in ("coroutine", "closure") and s["rv"]["adt"] == b.path]
